@@ -193,8 +193,12 @@ type syncBuffer struct {
 	b  bytes.Buffer
 }
 
-func (s *syncBuffer) Write(p []byte) (int, error) { s.mu.Lock(); defer s.mu.Unlock(); return s.b.Write(p) }
-func (s *syncBuffer) String() string              { s.mu.Lock(); defer s.mu.Unlock(); return s.b.String() }
+func (s *syncBuffer) Write(p []byte) (int, error) {
+	s.mu.Lock()
+	defer s.mu.Unlock()
+	return s.b.Write(p)
+}
+func (s *syncBuffer) String() string { s.mu.Lock(); defer s.mu.Unlock(); return s.b.String() }
 
 var reGoroutine = regexp.MustCompile(`(?m)^goroutine \d+ \[running\]`)
 
@@ -331,7 +335,11 @@ func Run(args []string) {
 				}
 				r.Count("fields_located", 1)
 				for _, class := range tb.Classes {
-					v, changed := classValue(class, f, readField(b.data, f), len(b.data))
+					orig := f.Orig
+					if f.Rewrite == nil {
+						orig = readField(b.data, f)
+					}
+					v, changed := classValue(class, f, orig, len(b.data))
 					if !changed {
 						continue
 					}
@@ -346,8 +354,13 @@ func Run(args []string) {
 						if (n+seedv)%every != 0 {
 							continue
 						}
-						d := append([]byte(nil), b.data...)
-						writeField(d, f, v)
+						var d []byte
+						if f.Rewrite != nil {
+							d = f.Rewrite(b.data, v)
+						} else {
+							d = append([]byte(nil), b.data...)
+							writeField(d, f, v)
+						}
 						p := filepath.Join(dir, fmt.Sprintf("c%d-%d%s", bi, n, b.ext))
 						cases = append(cases, &caseT{Type: b.typ, Signed: b.signed, Format: format, Field: fname, Class: class, Entry: entry, Value: v, path: p})
 						os.WriteFile(p, d, 0600)
